@@ -139,3 +139,18 @@ func CtlMapRangeSortedWhole(m map[[20]byte]int) [][20]byte {
 	sort.Slice(keys, func(i, j int) bool { return string(keys[i][:]) < string(keys[j][:]) })
 	return keys
 }
+
+// CtlMapFieldDelete: entries removed from a map held by a keeper-like struct (must be reported).
+func (k Keeper) CtlMapFieldDelete(a string) { delete(k.cache, a) }
+
+// CtlMapFieldPassed: the held map is handed to a helper that writes into it (must be reported).
+func (k Keeper) CtlMapFieldPassed(a string) { ctlFill(k.cache, a) }
+
+func ctlFill(m map[string]int, a string) { m[a] = 2 }
+
+// CtlLocalMapPassed: a map made in the function is handed to the same helper (must stay silent).
+func (k Keeper) CtlLocalMapPassed(a string) int {
+	m := map[string]int{}
+	ctlFill(m, a)
+	return m[a]
+}
